@@ -295,6 +295,25 @@ func vSeedRows(c *Collection, offs []uint32) {
 	}
 }
 
+// vSeedRowsB is vSeedRows plus a value in the int64 column "b" of every seeded row.
+func vSeedRowsB(c *Collection, offs []uint32, vals []uint64) {
+	for i := 0; i < len(offs); {
+		chunk := commit.ChunkAt(offs[i])
+		rows := commit.NewBuffer(16)
+		rows.Reset(rowColumn)
+		bs := commit.NewBuffer(16)
+		bs.Reset("b")
+		j := i
+		for j < len(offs) && commit.ChunkAt(offs[j]) == chunk {
+			rows.PutOperation(commit.Insert, offs[j])
+			bs.PutInt64(commit.Put, offs[j], int64(vals[j]))
+			j++
+		}
+		c.Replay(commit.Commit{ID: 1, Chunk: chunk, Updates: []*commit.Buffer{rows, bs}})
+		i = j
+	}
+}
+
 // vLiveSet returns the offsets Range visits, in order (at most max).
 func vLiveSet(c *Collection, max int) (out []uint32) {
 	c.Query(func(txn *Txn) error {
